@@ -1,10 +1,11 @@
 #!/bin/bash
 # usage: tools/verify_seed.sh Cxx  -> checks patch matches, demo on both trees, then runs the check on the worktree
 id=$1
+prop=${id%r2}
 cd /tmp/seed_$id && git diff > /tmp/cur_$id.diff; diff -q /tmp/cur_$id.diff /tmp/seedout_$id/patch.diff >/dev/null && echo "diff matches patch.diff" || echo "WARNING: worktree diff differs from patch.diff"
 (PYTHONPATH=/tmp/seed_$id timeout 1200 /venv/bin/python /tmp/seedout_$id/demo.py > /tmp/demo_mod_$id.log 2>&1; echo "demo on modified tree: exit $?"; tail -1 /tmp/demo_mod_$id.log | cut -c1-200)
 (PYTHONPATH=/repo timeout 1200 /venv/bin/python /tmp/seedout_$id/demo.py > /tmp/demo_orig_$id.log 2>&1; echo "demo on /repo: exit $?"; tail -1 /tmp/demo_orig_$id.log | cut -c1-200)
-cd /verif && VERIF_REPO=/tmp/seed_$id ./check $id 2>&1 | grep -E "VIOLATION|KNOWN|done|broken" | head -5
-f=$(ls -t /verif/replays/${id}_* 2>/dev/null | head -1)
+cd /verif && VERIF_REPO=/tmp/seed_$id ./check $prop 2>&1 | grep -E "VIOLATION|KNOWN|done|broken" | head -5
+f=$(ls -t /verif/replays/${prop}_* 2>/dev/null | head -1)
 [ -n "$f" ] && python3 -c "
 import json; r=json.load(open('$f')); print('   latest replay:', r['kind'], r.get('check'), r.get('code'), str(r.get('actual'))[:200]); print('   ', str(r.get('input'))[:300])"
